@@ -77,7 +77,7 @@ def build(ctx, e2e, rng, i, case_id, inside=True, ntv=None):
 
 
 def _conversions(ctx, e2e):
-    n = ctx.pick(24, 1600)
+    n = ctx.pick(24, 8000)
     for i in range(n):
         case_id = f"conv{i}"
         if not ctx.mine(i, case_id):
@@ -214,7 +214,7 @@ def _conversions(ctx, e2e):
 
 
 def _range_check(ctx, e2e):
-    n = ctx.pick(32, 1200)
+    n = ctx.pick(32, 4000)
     for i in range(n):
         case_id = f"range{i}"
         if not ctx.mine(10 ** 6 + i, case_id):
